@@ -17,6 +17,16 @@ CLAIMED = {
         "Unbounded theorems: __cmp__ returns only -1/0/1 for all trees; on well-formed trees it is 0 exactly when eq, antisymmetric and transitive; RCPBasicKeyLess is a strict weak order whose incomparability is eq; an ordered container filled by successive insertion is independent of insertion order. Tied by comparing the full __cmp__ and eq matrices of generated pools (model vs library) and by checking range, cmp=0<=>eq, antisymmetry on all pairs and transitivity on all triples of the library's own results.",
         "Trusted: as C01. Known finding (listed): NaN doubles compare as greater in both directions (excluded from the theorems by the well-formedness guard, with a refutation theorem).",
         "7 (C02)"),
+    "C28": (
+        "Rocq proof over an executable model of logic.cpp (and_or, logical_not/xor/nand/nor/xnor, piecewise, contains, relational constructors, subs on boolean trees; std::set order = modelled RCPBasicKeyLess) + exact correspondence of result trees",
+        "Unbounded theorems: for every formula of the fragment (relationals over symbols and exact rationals, membership in intervals/finite sets, closed under Not/And/Or/Xor), every argument list (hence every iteration order) and every assignment of rationals to the symbols, logical_and/or/nand/nor/xor/xnor/not, piecewise construction, Contains simplification and substitution preserve the truth value. Tied by reproducing the library's result tree exactly (container order included) on generated formulas; a truth-table oracle complete up to order type runs on the library's own results.",
+        "Trusted: Coq kernel; extraction; hand transcription validated by exact correspondence (testing); fragment excludes doubles/infinities in order comparisons and other set classes (model returns 'outside fragment', cases skipped); termination of and_or (fuel) is not proved, soundness holds for every fuel.",
+        "7 (C28)"),
+    "C46": (
+        "Rocq proof over an executable model of homogeneous_lde (Contejean-Devie: stack, Frozen matrix with checked indices, order/is_minimum) + correspondence of returned bases in order + proved-correct brute-force enumerator as oracle",
+        "Unbounded theorems for every integer matrix: every run that ends returns exactly the minimal non-zero non-negative solutions of A x = 0, each once (soundness, antichain, completeness by the Contejean-Devie argument), never indexes outside its arrays (stack-depth bound proved as an invariant), and more fuel does not change the result. Termination is proved only on complete small universes (kernel sweep), so the theorems are conditional on the run ending. Tied by comparing the returned basis (in order) between model and library and by an independent brute-force Hilbert-basis oracle in the driver.",
+        "Trusted: Coq kernel (vm_compute for the finite termination sweeps); extraction; hand transcription validated by correspondence; termination for all matrices not proved; a non-empty basis argument on entry is outside the property (refutation theorem documents that the function does not clear it).",
+        "7 (C46)"),
     "C33": (
         "Rocq proof over an executable state-machine model of Sieve (32-bit arithmetic, observable out-of-range accesses) + correspondence of histories against the rebuilt library",
         "Unbounded theorems (every history, every limit < 2^31, every sieve size 1..2^15 KB): no array access leaves its array, every loop terminates, generate_primes returns exactly the primes up to the limit in increasing order, iterators return the prime sequence without gaps or repeats. The model is tied to the code by running generated histories on the extracted model and on the library rebuilt from /repo and comparing every output.",
